@@ -10,7 +10,21 @@ func init() {
 	register("TreeRoundTrip", H_TreeRoundTrip)
 }
 
+// treeOps: OPS=1 restricts the operators to the boolean ones (deeper trees stay affordable).
+func treeOps() []int {
+	if rtParam("OPS") == 1 {
+		return []int{nOr, nAnd, nNot}
+	}
+	if rtParam("OPS") == 2 {
+		return []int{nOr, nAnd, nNot, nMustNot}
+	}
+	return allOps
+}
+
 func leafForms() []int {
+	if rtParam("LEAVES") == 3 {
+		return []int{lfEqStr}
+	}
 	if rtParam("LEAVES") == 2 {
 		return []int{lfBare, lfEqStr, lfEqInt, lfGt, lfRangeIncl, lfList, lfWild, lfBareInt}
 	}
@@ -44,7 +58,7 @@ func pairTag(n *node) string {
 // H_TreeRoundTrip (C05): print(tree) with parentheses exactly where the table requires them,
 // parse, compare with the tree.
 func H_TreeRoundTrip() {
-	t := genTree(rtParam("D"), allOps, leafForms())
+	t := genTree(rtParam("D"), treeOps(), leafForms())
 	rtTag("shape=" + pairTag(t))
 	variant := rtParam("VARIANT") // 0 minimal, 1 redundant parentheses around every operand, 2 wide spacing
 	o := &printOpts{}
@@ -110,7 +124,7 @@ func lastOperand(n *node) *node {
 // H_TreeJuxtapose (C07): one AND node of the tree written as juxtaposition; whenever both texts
 // parse the trees must be identical. A rejected juxtaposition is informational.
 func H_TreeJuxtapose() {
-	t := genTree(rtParam("D"), allOps, leafForms())
+	t := genTree(rtParam("D"), treeOps(), leafForms())
 	ands := collect(t, nAnd, nil)
 	if len(ands) == 0 {
 		rtAssume(false)
@@ -144,7 +158,7 @@ func H_TreeJuxtapose() {
 
 // H_TreeLayout (C09): layout variants of the same tree parse to the same tree.
 func H_TreeLayout() {
-	t := genTree(rtParam("D"), allOps, leafForms())
+	t := genTree(rtParam("D"), treeOps(), leafForms())
 	base := printNode(t, 0, &printOpts{})
 	e0, err0 := lucene.Parse(base)
 	variant := rtParam("VARIANT")
@@ -157,6 +171,8 @@ func H_TreeLayout() {
 	case 2: // redundant parentheses around one operand / the whole query
 		all := collect(t, -1, nil)
 		o.extraPar = map[*node]bool{all[rtChoose("paren", len(all))]: true}
+	case 3: // redundant parentheses around every field's value
+		o.valuePar = true
 	}
 	text := printNode(t, 0, o)
 	if variant == 0 {
@@ -165,7 +181,7 @@ func H_TreeLayout() {
 	rtObserve("base", base)
 	rtObserve("variant", text)
 	e1, err1 := lucene.Parse(text)
-	if variant != 2 {
+	if variant < 2 {
 		rtAssert("same-outcome", (err0 == nil) == (err1 == nil))
 	}
 	if err0 != nil || e0 == nil {
@@ -183,8 +199,8 @@ func H_TreeLayout() {
 // H_TreeDefaultField (C11): with a default field not used in the query the same queries are
 // accepted, bare operands become field:term and nothing else changes.
 func H_TreeDefaultField() {
-	t := genTree(rtParam("D"), allOps, leafForms())
-	text := printNode(t, 0, &printOpts{})
+	t := genTree(rtParam("D"), treeOps(), leafForms())
+	text := printNode(t, 0, &printOpts{valuePar: rtParam("VARIANT") == 1})
 	rtObserve("text", text)
 	// a default field name that is not a field of the query (query fields are lower case letters)
 	var df string
